@@ -902,9 +902,9 @@ func TestC07(t *testing.T) {
 		return
 	}
 	r := evid.Start(t, "C07", "exploration")
-	nBatch := r.N(3, 12)
-	nSeq := r.N(6, 60) // bubbles per child, c07Episodes scenarios each
-	nConc := r.N(6, 40)
+	nBatch := r.N(4, 12)
+	nSeq := r.N(8, 60) // bubbles per child, c07Episodes scenarios each
+	nConc := r.N(8, 40)
 	tmp, err := os.MkdirTemp("", "c07")
 	if err != nil {
 		r.Inconclusive("no temp dir: " + err.Error())
@@ -1011,18 +1011,18 @@ func TestC07(t *testing.T) {
 			}
 		}
 	}
-	r.Cases("batch", nBatch, 3, func(bi int, rng *rand.Rand) {
+	r.Cases("batch", nBatch, 4, func(bi int, rng *rand.Rand) {
 		s1, s2 := rng.Int63(), rng.Int63()
 		child(bi, "seq", s1, nSeq, 0)
 		child(bi, "conc", s2, 0, nConc)
 	})
-	if r.Counter("items_received_seq") < int64(r.N(150, 6000)) || r.Counter("items_received_conc") < int64(r.N(150, 6000)) {
+	if r.Counter("items_received_seq") < int64(r.N(300, 6000)) || r.Counter("items_received_conc") < int64(r.N(300, 6000)) {
 		r.Inconclusive(fmt.Sprintf("too few replies reached the result channels (seq %d, conc %d): capacity-bound drops would make the run vacuous",
 			r.Counter("items_received_seq"), r.Counter("items_received_conc")))
 	}
 	r.Extra("race_detector", raceLog != "")
 	r.Finish("random reply scripts against 1-3 overlapping real queries of one real node with 2-6 puppet members: matching / sibling-id / wrong-id / wrong-time replies, acks and responses, direct / relayed through the node itself / relayed through a puppet / NotifyMsg, duplicates, timed inside the window, at deadline-1ms, deadline, deadline+1ms and later (virtual time), optional early Close by the caller; plus concurrent mode: 3-8 goroutines deliver the same replies through NotifyMsg at once (spin barrier). Oracle: received multiset within sent-and-matching, at most one item per node and channel, nothing after the finish time, both channels observed closed exactly at the deadline. Non-trivial = at least one item received and at least one duplicate, non-matching, edge-timed or late reply; distinct by script",
-		r.N(120, 4000),
+		r.N(200, 4000),
 		"puppets stand in for responding serf nodes (the node under test does not validate the From field)",
 		"a double close or send on a closed channel shows up as a crash of the child process; race detector reports are attributed by tools/racesum.py and by the same rule in the monitor")
 }
